@@ -1,6 +1,7 @@
 mod check;
 mod derived;
 mod json;
+mod jsonw;
 mod node;
 mod obs;
 mod sites;
@@ -49,7 +50,7 @@ fn hops() -> impl Strategy<Value = Vec<Hop>> {
 }
 
 fn opt() -> impl Strategy<Value = Opt> {
-    prop_oneof![6 => Just(Opt::Plain), 2 => Just(Opt::Some), 2 => Just(Opt::None)]
+    prop_oneof![7 => Just(Opt::Plain), 2 => Just(Opt::Some), 1 => Just(Opt::None)]
 }
 
 /// The attributes stamped out for a subject (weights by repetition).
@@ -78,7 +79,27 @@ fn case_of(subj: impl Strategy<Value = Subj>) -> impl Strategy<Value = Case> {
             Subj::Wk(Wk::LvlOpt(_)) | Subj::Wk(Wk::TraceIdOpt(_)) | Subj::Wk(Wk::SpanIdOpt(_)) => Opt::Plain,
             _ => opt,
         };
-        Case { subj, mode, opt, hops, as_map }
+        Case { subj, mode, opt, hops, as_map, emit_macro: false }
+    })
+}
+
+/// The same values through `emit::emit!` call sites (a subset of the static types).
+fn emit_macro_case() -> impl Strategy<Value = Case> {
+    let subj = prop_oneof![
+        2 => any_i64().prop_map(Subj::I64),
+        2 => any_u64().prop_map(Subj::U64),
+        1 => u128_wide().prop_map(Subj::U128),
+        2 => f64_bits().prop_map(Subj::F64),
+        1 => f32_bits().prop_map(Subj::F32),
+        1 => any::<bool>().prop_map(Subj::Bool),
+        2 => any_text().prop_map(Subj::Str),
+        2 => any_text().prop_map(Subj::String),
+        6 => structured(),
+        2 => chain().prop_map(Subj::Err),
+    ];
+    case_of(subj).prop_map(|mut c| {
+        c.emit_macro = true;
+        c
     })
 }
 
@@ -192,12 +213,14 @@ fn main() {
         s.require("error:depth-4", 100);
         s.require("error:depth-0", 100);
         s.require("dontcare:cross-framework-noncomparable", 20);
+        s.require("site:emit-macro", 2000);
 
-        s.gen("primitives", s.n(30_000, 1_200_000), || case_of(prims()), sites::check);
-        s.gen("strings", s.n(14_000, 500_000), || case_of(strings()), sites::check);
-        s.gen("structured", s.n(34_000, 1_500_000), || case_of(structured()), sites::check);
-        s.gen("derived", s.n(10_000, 400_000), || case_of(derived::dspec().prop_map(Subj::Derived)), sites::check);
-        s.gen("errors", s.n(12_000, 300_000), || case_of(errors()), sites::check);
-        s.gen("well-known", s.n(8_000, 200_000), || case_of(well_known()), sites::check);
+        s.gen("primitives", s.n(100_000, 3_000_000), || case_of(prims()), sites::check);
+        s.gen("strings", s.n(40_000, 1_200_000), || case_of(strings()), sites::check);
+        s.gen("structured", s.n(80_000, 2_400_000), || case_of(structured()), sites::check);
+        s.gen("derived", s.n(24_000, 700_000), || case_of(derived::dspec().prop_map(Subj::Derived)), sites::check);
+        s.gen("errors", s.n(40_000, 1_200_000), || case_of(errors()), sites::check);
+        s.gen("well-known", s.n(16_000, 500_000), || case_of(well_known()), sites::check);
+        s.gen("emit-macro", s.n(40_000, 1_200_000), emit_macro_case, sites::check);
     })
 }
